@@ -207,6 +207,66 @@ def _check_varint_reader(ctx):
                         '%s:%d' % (fi.module.relpath, line))
 
 
+def _check_roundtrip(ctx):
+    """The reader accepts what the writer writes: for every cell of the specification the reader is evaluated on the
+    writer's own encoding of a symbolic value in that cell.  Every exit must hand the value back - a refusal (a
+    "canonical form" or "minimal push" test that is stricter than the writer) breaks the round trip."""
+    p = ctx.p
+    fr_ = p.get_function('helper.read_varint')
+    with ctx.obligation('C19.VARINT-RT', 'read_varint(encode_varint(i))', None, fr_.where) as ob:
+        for a, b, marker, width in wire.VARINT_CELLS:
+            i = S('i', type='int')
+            facts = _range_facts(i, a, b)
+            ev = Evaluator(p, 'ecdsa')
+            enc, _ = ev.call_function('helper.encode_varint', [i], facts=facts)
+            enc = _strip_raise(enc)
+            if T.tag(enc) == 'raise':
+                continue            # reported by C19.VARINT-WRITE
+            ev2 = Evaluator(p, 'ecdsa')
+            rest = S('rest', type='bytes')
+            v, f = ev2.call_function('helper.read_varint', [ev2.new_stream(T.cat(enc, rest))], facts=facts)
+            cell = '[%s, %s]' % (hex(a), hex(b))
+            lv = list(leaves(v))
+            ob.evaluations += 1
+            bad = [(cs, x) for cs, x in lv if T.tag(x) == 'raise' and x[1] != 'ValueError:short-read']
+            # a read of the writer's own bytes cannot be short: raises that depend on LEN(rest) do not count
+            bad = [(cs, x) for cs, x in bad if not any(T.contains(c, lambda y: y == rest) for c in cs)]
+            ob.require(not bad, 'read_varint refuses the encoding encode_varint writes for a value in %s: the round trip fails for '
+                       'standard shortest-form input' % cell, fr_.where,
+                       found=['%s when %s' % (x[1], ' and '.join(T.show(c, maxdepth=4) for c in cs[-2:])) for cs, x in bad][:2])
+            for cs, x in lv:
+                if T.tag(x) != 'raise':
+                    same_term(ob, T.assume(x, set(cs)), i, 'read_varint(encode_varint(i)) is i for i in %s' % cell, fr_.where)
+    fp_ = p.get_function('script.Script.parse')
+    with ctx.obligation('C19.PUSH-RT', 'Script.parse(Script([e]).serialize())', None, fp_.where) as ob:
+        for a, b, prefix, width, nm in wire.PUSH_CELLS:
+            elem = S('elem', type='bytes')
+            L = T.len_(elem)
+            facts = _range_facts(L, a, b)
+            ev = Evaluator(p, 'ecdsa')
+            me = T.obj(SCRIPT, {'cmds': T.lst([elem])})
+            enc, _ = ev.call_function('script.Script.serialize', [me], facts=facts)
+            enc = _strip_raise(enc)
+            if T.tag(enc) == 'raise' or T.opaques(enc):
+                ob.note('serialize of a %s element is not a plain term (decided by C19.PUSH / C19.SERIALIZE)' % nm)
+                continue
+            ev2 = Evaluator(p, 'ecdsa')
+            try:
+                v, f = ev2.call_function('script.Script.parse', [T.clsref(SCRIPT), ev2.new_stream(enc)], facts=facts)
+            except Exception as e:      # the loop form of parse may be beyond the evaluator: decided by C19.READER then
+                ob.note('parse of the serialised %s element could not be evaluated whole (%s); see C19.READER' % (nm, type(e).__name__))
+                continue
+            ob.evaluations += 1
+            lv = list(leaves(v))
+            if any(T.opaques(x) for _, x in lv):
+                ob.note('parse of the serialised %s element is not a plain term; see C19.READER' % nm)
+                continue
+            bad = [(cs, x) for cs, x in lv if T.tag(x) == 'raise']
+            ob.require(not bad, 'Script.parse refuses the bytes Script.serialize writes for one %s element (%d..%d bytes): the round '
+                       'trip fails for a standard push' % (nm, a, b), fp_.where,
+                       found=['%s when %s' % (x[1], ' and '.join(T.show(c, maxdepth=4) for c in cs[-2:])) for cs, x in bad][:2])
+
+
 def _find_while(fi):
     ws = [n for n in fi.node.body if isinstance(n, ast.While)]
     if len(ws) != 1:
@@ -384,6 +444,40 @@ def _check_script_reader(ctx):
         return      # the loop state was not identified (reported above as UNDECIDED)
     _check_early_returns(ctx, fi, pre, LEN)
     # epilogue: count != length is refused, result wraps the command list
+    # the reader refuses a standard push only for want of bytes: with a first byte 1..75 (or PUSHDATA1/2 announcing a length
+    # the writer uses that form for) every refusing exit of the loop body must depend on how many bytes the stream still
+    # holds - a refusal that depends on the element's *content* ("minimal push" rules stricter than the writer) breaks
+    # parse(serialize(s)) == s
+    if BUF is None:
+        with ctx.obligation('C19.ACCEPT', 'Script.parse loop body', None, fi.where) as obc:
+            for b in list(range(1, 76)) + [76, 77]:
+                ev = Evaluator(p, 'ecdsa')
+                rest = S('rest', type='bytes')
+                facts0 = Facts()
+                if b in (76, 77):
+                    w = b - 75
+                    Lf = T.int_(T.slice_(rest, T.const(0), T.const(w)), LITTLE)
+                    lo_, hi_ = (76, 255) if b == 76 else (256, 520)
+                    facts0 = facts0.add(T.not_(T.lt(Lf, T.const(lo_)))).add(T.lt(Lf, T.const(hi_ + 1)))
+                env = {params[0]: T.clsref(SCRIPT), STREAM: ev.new_stream(T.cat(T.const(bytes([b])), rest)),
+                       CNT: T.const(0), CMDS: T.lst([]), LEN: ls}
+                try:
+                    res, env2, facts2 = ev.eval_fragment('script.Script.parse', loop.body, env, facts0)
+                except Exception:
+                    continue
+                obc.evaluations += 1
+                if res is None or not isinstance(res, tuple):
+                    continue
+                for cs_, leaf in leaves(res):
+                    if T.tag(leaf) != 'raise' or str(leaf[1]).startswith('<'):
+                        continue
+                    # the condition that decides this exit (the innermost one) is a test of how many bytes a read returned
+                    short = bool(cs_) and T.contains(cs_[-1], lambda y: T.is_op(y, 'LEN') and T.contains(y, lambda z: z == rest))
+                    obc.require(short, 'first byte 0x%02x: the loop body refuses a standard push for a reason other than the stream '
+                                'ending early (the refusal depends on the element\'s content or on nothing at all): '
+                                'Script.parse(Script([e]).serialize()) fails for such an element' % b,
+                                '%s:%d' % (fi.module.relpath, loop.lineno),
+                                found='%s when %s' % (leaf[1], ' and '.join(T.show(c_, maxdepth=4) for c_ in cs_[-3:]) or 'always'))
     with ctx.obligation('C19.ACCT-FINAL', 'Script.parse epilogue', None, fi.where) as ob:
         ev = Evaluator(p, 'ecdsa')
         cs, ls, cm = S('count', type='int'), S('length', type='int'), S('cmds', type='list')
@@ -568,3 +662,4 @@ def run(ctx):
     _check_varint_reader(ctx)
     _check_script_reader(ctx)
     _check_serialize(ctx)
+    _check_roundtrip(ctx)
